@@ -144,7 +144,11 @@ for i in range(ncases):
         w[0] += rng.choice([2.5, 1.0, 0.25])
         w[-1] *= rng.choice([0.5, 0.0, 3.0])
         w2 = w.copy()
+        held = None if isinstance(first, BaseException) else [np.array(x, dtype=float, copy=True) for x in first]
         again = attempt(lambda: calc(w, density=rho))
+        if held is not None and any(not np.array_equal(np.asarray(a_, dtype=float), b_, equal_nan=True) for a_, b_ in zip(first, held)):
+            fail("C17:earlier-result-changed", "%s: the result of the first call, still held by the caller, was changed by the second call: %r became %r"
+                 % (txt, [b_.tolist() for b_ in held], [np.asarray(a_, dtype=float).tolist() for a_ in first]), call=txt)
         fresh = attempt(lambda: nsf.neutron_composite_sld(mats, **kw)(w2, density=rho))
         t3 = "%s; then the same array changed in place to %r and the calculator called again" % (txt, w2.tolist())
         if isinstance(again, BaseException) or isinstance(fresh, BaseException):
